@@ -894,6 +894,41 @@ def _strdiff(a, b):
     return 'line count %d vs %d' % (len(la), len(lb))
 
 
+FIELD_FAULTS = ['x_nan', 'resid_nan', 'obj_nan', 'jacobian_none', 'jacobian_nan', 'jacmin_eval_nums_none', 'diagnostic_none',
+                'long_resid', 'big_jacobian', 'long_jacmin_eval_nums', 'all_nan']
+
+
+def apply_field_fault(soln, name):
+    """Returns a shallow copy of a real result with one field replaced (the 'flipped stored value' of this library)."""
+    import copy
+    s = copy.copy(soln)
+    if name in ('x_nan', 'all_nan'):
+        s.x = np.array(s.x, dtype=float, copy=True)
+        s.x[0] = np.nan
+    if name in ('resid_nan', 'all_nan'):
+        s.resid = np.array(s.resid, dtype=float, copy=True)
+        s.resid[-1] = np.nan
+    if name in ('obj_nan', 'all_nan'):
+        s.obj = float('nan')
+    if name == 'jacobian_none':
+        s.jacobian = None
+    if name in ('jacobian_nan', 'all_nan') and s.jacobian is not None:
+        s.jacobian = np.array(s.jacobian, dtype=float, copy=True)
+        s.jacobian[0, 0] = np.nan
+    if name == 'jacmin_eval_nums_none':
+        s.jacmin_eval_nums = None
+    if name == 'diagnostic_none':
+        s.diagnostic_info = None
+    if name == 'long_resid':         # beyond the printing threshold (100)
+        s.resid = np.linspace(-1.0, 1.0, 137)
+        s.resid[5] = np.nan
+    if name == 'big_jacobian':       # beyond the printing threshold (200 entries)
+        s.jacobian = np.arange(21 * 11, dtype=float).reshape(21, 11) / 7.0
+    if name == 'long_jacmin_eval_nums':
+        s.jacmin_eval_nums = np.arange(1, 121, dtype=int)
+    return s
+
+
 def check_C20(H):
     if not has_solution(H):
         return []
@@ -901,7 +936,32 @@ def check_C20(H):
         site = 'save_xk_rk'
     else:
         site = 'exit:%s' % (int(H.soln.flag),)
+    ff = H.scn.get('field_fault')
+    if ff:
+        return check_roundtrip(apply_field_fault(H.soln, ff), 'field_fault:' + ff)
     return check_roundtrip(H.soln, site)
+
+
+def c20_field_fault_post(res, H, scn):
+    """Swarm post-hook: every field fault on every 8th real result (each variant is its own replayable scenario)."""
+    if not has_solution(H):
+        return
+    res['stats']['c20.results_roundtripped'] = res['stats'].get('c20.results_roundtripped', 0) + 1
+    if (res['runs'] % 4) != 0:
+        return
+    for ff in FIELD_FAULTS:
+        vs = check_roundtrip(apply_field_fault(H.soln, ff), 'field_fault:' + ff)
+        res['stats']['c20.field_faults_injected'] = res['stats'].get('c20.field_faults_injected', 0) + 1
+        res['stats']['c20.ff.' + ff] = res['stats'].get('c20.ff.' + ff, 0) + 1
+        for v in vs:
+            s2 = S.clone(scn)
+            s2['field_fault'] = ff
+            rec = dict(v)
+            rec['scenario'] = s2
+            rec['kind'] = 'solve'
+            from . import legs as _L
+            rec['features'] = S.features(scn) + ['field_fault'] + _L.run_facts(H)
+            res['violations'].append(rec)
 
 
 # attach a tiny helper to History without importing sim here
